@@ -1,6 +1,7 @@
 import Casm.Proofs.FrozenS
 import Casm.Proofs.SwitchPass
 import Casm.Proofs.BudgetMono
+import Casm.Proofs.Quiet
 /-!
 # Casm.Proofs.SwitchSim — the two settings of the static-value optimisation, step by step
 
@@ -593,6 +594,41 @@ theorem finish_sim (H : Nat → Bool) (st : Static) (nodes : List AstNode) (d0 :
       rw [e2]
       cases s2 <;> rfl
 
+/-- from a fixed point of the strict pass, any budget ends there, having reported what the strict
+    pass reports and nothing else -/
+theorem from_fix_rep (st : Static) (nodes : List AstNode) (m : Nat) (d : Defs) (r : List String)
+    (hfix : resolveOnce st nodes false true d = .ok (d, true, r)) :
+    ∀ (fuel i : Nat) (rep : List String), 1 ≤ i → i + fuel = m →
+      ∃ k, finish st nodes (iterLoop st nodes m fuel i d rep) = .ok (k, d, rep ++ r) := by
+  intro fuel
+  induction fuel with
+  | zero =>
+    intro i rep _ _
+    simp only [iterLoop, finish, hfix, if_true]
+    exact ⟨i, rfl⟩
+  | succ f ih =>
+    intro i rep hi him
+    have hlt : ¬ (i ≥ m) := by omega
+    have hfirst : (i + 1 == 1) = false := by
+      have : i + 1 ≠ 1 := by omega
+      simpa using this
+    simp only [iterLoop, hlt, if_false, hfirst]
+    by_cases hl : (i + 1 == m) = true
+    · simp only [hl, hfix, if_true, finish]
+      exact ⟨i + 1, rfl⟩
+    · have hl' : (i + 1 == m) = false := by simpa using hl
+      obtain ⟨b, r', hg⟩ := resolveOnce_guess st nodes d d r hfix
+      have hq : r' = [] := resolveOnce_quiet st nodes false d d b r' hg
+      subst hq
+      simp only [hl', hg, Bool.false_eq_true, if_false, List.append_nil]
+      cases b with
+      | true =>
+        simp only [if_true, finish, hfix]
+        exact ⟨i + 1, rfl⟩
+      | false =>
+        simp only [Bool.false_eq_true, if_false]
+        exact ih (i + 1) rep (by omega) (by omega)
+
 /-- the first pass unrolled (budget at least two: it is not the last one) -/
 theorem iterLoop_first (st : Static) (nodes : List AstNode) (m : Nat) (d : Defs) :
     iterLoop st nodes (m + 2) (m + 2) 0 d [] =
@@ -665,11 +701,11 @@ theorem resolveIterativelyN_switch_lockstep (H : Nat → Bool) (st : Static) (no
 theorem resolveIterativelyN_switch_success (H : Nat → Bool) (st : Static) (nodes : List AstNode) (d0 : Defs)
     (f : FrontOK st nodes d0) (fs : FrontOKS st nodes d0 H) (ho : st.opts.optStatic = true) (hwf : NoClash nodes) (m : Nat)
     (k : Nat) (d : Defs) (rep : List String) (h : resolveIterativelyN st nodes (m + 2) d0 = .ok (k, d, rep)) :
-    ∃ k' rep', resolveIterativelyN (st.withStatic false) nodes (m + 2) (d0.unfS H) = .ok (k', d.unfS H, rep') := by
+    ∃ k', resolveIterativelyN (st.withStatic false) nodes (m + 2) (d0.unfS H) = .ok (k', d.unfS H, rep) := by
   by_cases hagree : ∀ d1 r1, resolveOnce st nodes true false d0 = .ok (d1, true, r1) →
       resolveOnce (st.withStatic false) nodes true false (d0.unfS H) = .ok (d1.unfS H, true, r1)
   · rw [resolveIterativelyN_switch_lockstep H st nodes d0 f fs ho m hagree, h]
-    exact ⟨k, rep, rfl⟩
+    exact ⟨k, rfl⟩
   · have hex : ∃ d1 r1, resolveOnce st nodes true false d0 = .ok (d1, true, r1) ∧
         ¬ resolveOnce (st.withStatic false) nodes true false (d0.unfS H) = .ok (d1.unfS H, true, r1) := by
       refine Classical.byContradiction fun hno => hagree fun d1 r1 hp => ?_
@@ -699,18 +735,18 @@ theorem resolveIterativelyN_switch_success (H : Nat → Bool) (st : Static) (nod
       | false => simp at h
       | true =>
         simp only [if_true] at h
-        injection h with h; injection h with _ h; injection h with hd _
+        injection h with h; injection h with _ h; injection h with hd hrep
         subst hd
+        subst hrep
         have hok1 : NodesOK d1 nodes := pass_establishes_ok st nodes true false d0 d1 true r1 hp hwf
         have hid : d' = d1 := resolveOnce_stable_id st nodes true d1 d' r2 hq hok1
         subst hid
         obtain ⟨_, s2', e2', _, i2'⟩ := sim2
         have : s2' = true := i2' rfl
         subst this
-        have hfix : IsFix (st.withStatic false) nodes (d'.unfS H) := ⟨r2, e2'⟩
-        have hfin := from_fix (st.withStatic false) nodes (m + 2) (d'.unfS H) hfix (m + 1) 1 ([] ++ r1) (by omega) (by omega)
-        refine (resolveIterativelyN_final (st.withStatic false) nodes (m + 2) (d0.unfS H) (d'.unfS H)).mpr ?_
-        rw [iterLoop_first, e2]
+        obtain ⟨k', hfin⟩ := from_fix_rep (st.withStatic false) nodes (m + 2) (d'.unfS H) r2 e2' (m + 1) 1 ([] ++ r1) (by omega) (by omega)
+        refine ⟨k', ?_⟩
+        rw [resolveIterativelyN_finish, iterLoop_first, e2]
         simpa using hfin
 
 end Casm
